@@ -60,6 +60,11 @@ func targetByName(n string) *target {
 // rtmp chunk reader + message decoder on whatever messages come out
 func tRtmpChunks(data []byte) (n int) {
 	p := rtmp.NewProtocol(xport.RW{Reader: bytes.NewReader(data), Writer: io.Discard})
+	if len(data)%2 == 0 {
+		// the endpoint is a client with a connect and a createStream outstanding: responses in the stream can be matched
+		p.WritePacket(rtmp.NewConnectAppPacket(), 0)
+		p.WritePacket(rtmp.NewCreateStreamPacket(), 0)
+	}
 	for i := 0; i < 1<<16; i++ {
 		m, err := p.ReadMessage()
 		if err != nil {
